@@ -1,7 +1,7 @@
 //! C28 — the control-flow graph partitions the body and locates its blocks.
 use qvh::*;
 use quil_rs::instruction::{Instruction, Target};
-use quil_rs::program::analysis::{BasicBlockTerminator, ControlFlowGraph};
+use quil_rs::program::analysis::{BasicBlock, BasicBlockTerminator, ControlFlowGraph, ControlFlowGraphOwned};
 use quil_rs::quil::Quil;
 use quil_rs::Program;
 use std::str::FromStr;
@@ -34,11 +34,8 @@ fn project(i: &Instruction) -> Sexp {
     }
 }
 
-fn observe(p: &Program) -> Sexp {
-    let cfg = ControlFlowGraph::from(p);
-    let dynamic = cfg.has_dynamic_control_flow();
-    let blocks = cfg
-        .into_blocks()
+fn blocks_sexp(blocks: Vec<BasicBlock>) -> Vec<Sexp> {
+    blocks
         .into_iter()
         .map(|b| {
             let label = match b.label() {
@@ -57,8 +54,79 @@ fn observe(p: &Program) -> Sexp {
             };
             tagged("b", vec![label, instrs, nat(b.instruction_index_offset() as u64), term])
         })
-        .collect();
+        .collect()
+}
+
+fn observe(p: &Program) -> Sexp {
+    let cfg = ControlFlowGraph::from(p);
+    let dynamic = cfg.has_dynamic_control_flow();
+    let blocks = blocks_sexp(cfg.into_blocks());
     tagged("cfg", vec![tagged("dyn", vec![boolean(dynamic)]), tagged("blocks", blocks)])
+}
+
+/// Sibling entry points and derived views: each must agree with the primary observation.
+/// `(sib <owned> <single> <index> <terminst> <again>)`
+fn siblings(p: &Program, primary: &Sexp) -> Sexp {
+    // owned round trip
+    let owned = ControlFlowGraphOwned::from(ControlFlowGraph::from(p));
+    let back = ControlFlowGraph::from(&owned);
+    let dynamic = back.has_dynamic_control_flow();
+    let via_owned = tagged("cfg", vec![tagged("dyn", vec![boolean(dynamic)]), tagged("blocks", blocks_sexp(back.into_blocks()))]);
+    let owned_same = &via_owned == primary;
+    // a second computation on the same program
+    let again_same = &observe(p) == primary;
+    // BasicBlock::try_from
+    let blocks = ControlFlowGraph::from(p).into_blocks();
+    let single = match BasicBlock::try_from(p) {
+        Ok(b) => {
+            if blocks.len() == 1 && blocks_sexp(vec![b]) == blocks_sexp(blocks.clone()) {
+                "ok-same"
+            } else {
+                "ok-differs"
+            }
+        }
+        Err(e) => {
+            let _ = (e.to_string(), format!("{e:?}"));
+            "err"
+        }
+    };
+    // offset-based indexing into the program body (only meaningful without ignored instructions)
+    let has_skip = p.body_instructions().any(|i| matches!(i, Instruction::Include(_)));
+    let mut index_ok = true;
+    let mut term_ok = true;
+    if !has_skip {
+        for b in &blocks {
+            let mut pos = b.instruction_index_offset();
+            if let Some(l) = b.label() {
+                match p.get_instruction(pos) {
+                    Some(Instruction::Label(x)) if &x.target == l => {}
+                    _ => index_ok = false,
+                }
+                pos += 1;
+            }
+            for i in b.instructions() {
+                if p.get_instruction(pos) != Some(*i) {
+                    index_ok = false;
+                }
+                pos += 1;
+            }
+            if let Some(t) = b.terminator().clone().into_instruction() {
+                if p.get_instruction(pos) != Some(&t) {
+                    term_ok = false;
+                }
+            }
+        }
+    }
+    tagged(
+        "sib",
+        vec![
+            atom(if owned_same { "owned-same" } else { "owned-differs" }),
+            atom(single),
+            atom(if has_skip { "index-na" } else if index_ok { "index-ok" } else { "index-bad" }),
+            atom(if term_ok { "term-ok" } else { "term-bad" }),
+            atom(if again_same { "again-same" } else { "again-differs" }),
+        ],
+    )
 }
 
 fn case(ctx: &mut Ctx, instructions: &[Instruction]) {
@@ -68,7 +136,21 @@ fn case(ctx: &mut Ctx, instructions: &[Instruction]) {
     }
     // the model's input is the projection of the REAL body, whatever add_instruction routed there
     let body: Vec<Sexp> = p.body_instructions().map(project).collect();
-    ctx.case(tagged("body", body), || observe(&p));
+    ctx.case(tagged("body", body), || {
+        let primary = observe(&p);
+        let sib = siblings(&p, &primary);
+        // the same content built by other routes must give the same graph
+        let q = Program::from_instructions(p.to_instructions());
+        let route = if observe(&q) == primary { "route-same" } else { "route-differs" };
+        match primary {
+            Sexp::List(mut v) => {
+                v.push(sib);
+                v.push(atom(route));
+                Sexp::List(v)
+            }
+            other => other,
+        }
+    });
 }
 
 fn parse_pool(src: &[&str]) -> Vec<Instruction> {
